@@ -68,7 +68,7 @@ def jobs(tier, seed):
     J.append(Job('unknown-descriptor', 'harness.c14', 'h_unknown', {}, timeout=900, witnesses=['refused', 'not-reached']))
     J.append(Job('table-selection', 'harness.c14', 'h_selection', {}, timeout=900, witnesses=['selected', 'selected-local']))
     J.append(Job('canary:nested-count', 'harness.c14', 'h_grouping', {'max_len': 4}, timeout=600, max_cex=1,
-                 mutate='pybufrkit.tables::            if isinstance(descriptor, DelayedReplicationDescriptor):\n                descriptor.factor = b.lookup(next_id())-->>            if isinstance(descriptor, DelayedReplicationDescriptor):\n                descriptor.factor = b.lookup(31001)'))
+                 mutate='pybufrkit.tables::                descriptor.factor = b.lookup(factor_id)-->>                descriptor.factor = b.lookup(31001)'))
     J.append(Job('canary:skip-unknown', 'harness.c14', 'h_unknown', {}, timeout=600, max_cex=1,
                  mutate="pybufrkit.coder::            else:\n                raise UnknownDescriptor('Cannot process descriptor {} of type: {}'.format(\n                    member, member_type.__name__))-->>            else:\n                continue"))
     J.append(Job('canary:subcentre-fallback', 'harness.c14', 'h_selection', {}, timeout=600, max_cex=1,
